@@ -203,10 +203,10 @@ func spell(t *rapid.T, addr string) string {
 // member spelled otherwise or under none at all (the output schema of the generated services demands no member).
 func hOutput(t *rapid.T, rates bool) string {
 	v := hValue(t, rates)
-	switch rapid.IntRange(0, 1<<20).Draw(t, "member") % 12 {
-	case 10:
+	switch rapid.IntRange(0, 1<<20).Draw(t, "member") % 8 {
+	case 6:
 		return fmt.Sprintf(`{"header":{},"body":{"Last":"%s"}}`, v)
-	case 11:
+	case 7:
 		return `{"header":{},"body":{}}`
 	}
 	return fmt.Sprintf(`{"header":{},"body":{"last":"%s"}}`, v)
